@@ -48,7 +48,7 @@ pub fn gen_history_spec(rng: &mut Prng, prop: &str, with_jitter: bool, max_ops: 
                 let tail = spec.clock.take().unwrap();
                 let first = tail.readings.first().copied().unwrap_or(0);
                 readings.extend(tail.readings.iter().map(|x| last.wrapping_add(x.wrapping_sub(first)).wrapping_add(131)));
-                spec.clock = Some(crate::seams::clock::ClockSpec { readings, tail_key: tail.tail_key, fork_skews: vec![], freeze: None });
+                spec.clock = Some(crate::seams::clock::ClockSpec { readings, tail_key: tail.tail_key, fork_skews: vec![], freeze: None, abort_at: None });
                 spec.rounds = Some(r as u8);
                 spec.pre = 0;
                 let first_op = match rng.below(5) {
